@@ -81,10 +81,24 @@ package xy
 //@   requires mask[0] == 1 && mask[len(mask)-1] == 1 && forall i int :: 0 < i && i < len(mask)-1 ==> mask[i] == 0
 //@   ensures [kept] mask[0] == 1 && mask[len(mask)-1] == 1 && res >= 2
 //@   ensures [bits] forall i int :: 0 <= i && i < len(mask) ==> mask[i] == 0 || mask[i] == 1
-//@   ensures [within] forall u, v, i int :: {noMarks(heapfor("byte"), mask, u, v), d2at(cells(ls), off(ls), stride, u, v, i)} 0 <= u && u < i && i < v && v < len(mask) && mask[u] == 1 && mask[v] == 1 && noMarks(heapfor("byte"), mask, u, v) ==> d2at(cells(ls), off(ls), stride, u, v, i) <= threshold * threshold
+//@   ensures [within] forall u, v, i int :: {d2at(cells(ls), off(ls), stride, u, v, i)} 0 <= u && u < i && i < v && v < len(mask) && mask[u] == 1 && mask[v] == 1 && noMarks(heapfor("byte"), mask, u, v) ==> d2at(cells(ls), off(ls), stride, u, v, i) <= threshold * threshold
 //@   modifies mask
 //@   at entry: assert len(ls) / stride == len(mask)
+//@   at stmt16: assert mul(i, stride) == i * stride && mul(start, stride) == start * stride && mul(end, stride) == end * stride
+//@   at stmt16: assert dist == d2at(cells(ls), off(ls), stride, start, end, i)
 //@   at loop2.end: assert d2at(cells(ls), off(ls), stride, start, end, i - 1) <= maxDist
+//@   at stmt24: assert forall k int :: 0 <= k && k + 1 < len(stack) && (len(stack) - k) % 2 == 0 ==> stack[k] < stack[k+1]
+//@   at stmt24: assert forall k int :: 0 <= k && k + 1 < len(stack) && (len(stack) - k) % 2 == 1 ==> stack[k] == stack[k+1]
+//@   at stmt24: assert forall k int :: 0 <= k && k < len(stack) ==> 0 <= stack[k] && stack[k] < len(mask) && mask[stack[k]] == 1 && mul(stack[k] + 1, stride) == mul(stack[k], stride) + stride && 0 <= mul(stack[k], stride)
+//@   at stmt25: assert forall k int :: 0 <= k && k + 1 < len(stack) && (len(stack) - k) % 2 == 0 ==> stack[k] < stack[k+1]
+//@   at stmt25: assert forall k int :: 0 <= k && k + 1 < len(stack) && (len(stack) - k) % 2 == 1 ==> stack[k] == stack[k+1]
+//@   at stmt25: assert forall k int :: 0 <= k && k < len(stack) ==> 0 <= stack[k] && stack[k] < len(mask) && mask[stack[k]] == 1 && mul(stack[k] + 1, stride) == mul(stack[k], stride) + stride && 0 <= mul(stack[k], stride)
+//@   at stmt24: assert forall a, b int :: 0 <= a && a <= b && b < len(stack) ==> stack[a] <= stack[b]
+//@   at stmt25: assert forall a, b int :: 0 <= a && a <= b && b < len(stack) ==> stack[a] <= stack[b]
+//@   at stmt24: assert forall k, w int :: 0 <= k && k + 1 < len(stack) && (len(stack) - k) % 2 == 0 && stack[k] < w && w < stack[k+1] ==> mask[w] == 0
+//@   at stmt25: assert forall k, w int :: 0 <= k && k + 1 < len(stack) && (len(stack) - k) % 2 == 0 && stack[k] < w && w < stack[k+1] ==> mask[w] == 0
+//@   at stmt24: assert forall u, v, i int :: {d2at(cells(ls), off(ls), stride, u, v, i)} end <= u && u < i && i < v && v < len(mask) && mask[u] == 1 && mask[v] == 1 && noMarks(heapfor("byte"), mask, u, v) ==> d2at(cells(ls), off(ls), stride, u, v, i) <= threshold * threshold
+//@   at stmt25: assert forall u, v, i int :: {d2at(cells(ls), off(ls), stride, u, v, i)} start <= u && u < i && i < v && v < len(mask) && mask[u] == 1 && mask[v] == 1 && noMarks(heapfor("byte"), mask, u, v) ==> d2at(cells(ls), off(ls), stride, u, v, i) <= threshold * threshold
 //@   loop 1:
 //@     invariant [shape] l == len(stack) && l >= 0 && l % 2 == 0 && fresh(stack) && (l > 0 ==> stack[0] == 0) && found >= 2
 //@     invariant [range] forall k int :: 0 <= k && k < l ==> 0 <= stack[k] && stack[k] < len(mask) && mask[stack[k]] == 1 && mul(stack[k] + 1, stride) == mul(stack[k], stride) + stride && 0 <= mul(stack[k], stride)
@@ -93,7 +107,7 @@ package xy
 //@     invariant [chain] forall k int :: 0 <= k && k + 1 < l && (l - k) % 2 == 1 ==> stack[k] == stack[k+1]
 //@     invariant [pending] forall k, w int :: 0 <= k && k + 1 < l && (l - k) % 2 == 0 && stack[k] < w && w < stack[k+1] ==> mask[w] == 0
 //@     invariant [bits] mask[0] == 1 && mask[len(mask)-1] == 1 && forall i int :: 0 <= i && i < len(mask) ==> mask[i] == 0 || mask[i] == 1
-//@     invariant [done] forall u, v, i int :: {noMarks(heapfor("byte"), mask, u, v), d2at(cells(ls), off(ls), stride, u, v, i)} (l > 0 ? stack[l-1] : 0) <= u && u < i && i < v && v < len(mask) && mask[u] == 1 && mask[v] == 1 && noMarks(heapfor("byte"), mask, u, v) ==> d2at(cells(ls), off(ls), stride, u, v, i) <= threshold * threshold
+//@     invariant [done] forall u, v, i int :: {d2at(cells(ls), off(ls), stride, u, v, i)} (l > 0 ? stack[l-1] : 0) <= u && u < i && i < v && v < len(mask) && mask[u] == 1 && mask[v] == 1 && noMarks(heapfor("byte"), mask, u, v) ==> d2at(cells(ls), off(ls), stride, u, v, i) <= threshold * threshold
 //@   loop 2:
 //@     invariant start + 1 <= i && i <= end && maxDist >= 0.0 && mul(i + 1, stride) == mul(i, stride) + stride && 0 <= mul(i, stride)
 //@     invariant forall k int :: {d2at(cells(ls), off(ls), stride, start, end, k)} start < k && k < i ==> d2at(cells(ls), off(ls), stride, start, end, k) <= maxDist
